@@ -88,7 +88,7 @@ def strip_comments(src):
     return src
 
 
-EXTRA_PROP_MODULES = {"C17": [("C17e", "C17e")], "C09": [("C09c", "C09")], "C10": [("C09c", "C10")]}
+EXTRA_PROP_MODULES = {"C17": [("C17e", "C17e")], "C09": [("C09c", "C09")], "C10": [("C09c", "C10")], "C06": [("C06b", "C06")]}
 
 FORBIDDEN = re.compile(r"\bsorry\b|\badmit\b|^axiom |native_decide|bv_decide|implemented_by|\bunsafe |maxHeartbeats 0", re.M)
 
